@@ -290,11 +290,16 @@ class CachedStore(Entity):
             Number of entries flushed.
         """
         flushed = 0
-        for key in list(self._dirty_keys):
-            if key in self._cache:
-                yield from self._backing_store.put(key, self._cache[key])
-                self._dirty_keys.pop(key, None)
-                self._writebacks += 1
+        for key in list(self._dirty_keys):  # insertion order: the order the keys became dirty
+            if key not in self._dirty_keys or key not in self._cache:
+                continue
+            # Model the write latency, then persist whatever the entry holds
+            # when the write lands.  Capturing the value up front would let a
+            # put() or delete() that arrives during the latency be overwritten
+            # by (or lose its dirty mark to) the older value.
+            yield self._backing_store.write_latency
+            if key in self._dirty_keys and key in self._cache:
+                self._write_back_if_dirty(key)
                 flushed += 1
         return flushed
 
